@@ -2,9 +2,9 @@
 import re
 
 from . import absint as A
-from .lib import PLUMBING, callee_allow, callers, closure_args_of_call, operand_local, try_edges
+from .lib import callers, closure_args_of_call, operand_local, try_edges
 from .lib_c01 import (VALUE_PRESERVING, access_path, always_err_try_edges, bool_switch_of_call, conflict_loop, dead_ends, edge_is_rejecting,
-                      enum_switches, ok_return_blocks, option_edges, resolve_path)
+                      enum_switches, ok_return_blocks, option_edges, Renamed, PRE_FIX_F3_EDITS)
 
 LEVEL = "other"
 TECHNIQUE = ("static analysis: dominance of router.insert by the three validations' Continue edges, decision tables read off the MIR switches of HttpRouter::insert "
@@ -82,6 +82,12 @@ def r1_validation_before_insert(ctx):
                     oks = ok_return_blocks(top)
                     okp = bool(oks) and all(top.edge_dominates(te["switch_bb"], te["cont"], b) for b in oks) and not any(b in top.reachable(te["brk"]) for b in oks)
                     d = "%s: Ok(()) is returned only on the Continue edge of _register(..).map_err(..)?: %s" % (top.id, okp)
+        if not okp:
+            # or the result is returned as is: `return _register(..).map_err(..)`
+            p = access_path(top, {"l": 0, "p": []}, VP + [r"Result::<T, E>::map_err$"])
+            if p.call() and p.call()[2] is ct and not p.path:
+                okp = True
+                d = "%s returns _register(..).map_err(..) itself" % top.id
     ctx.check(R, "register-propagates-refusal", okp, d, reg)
 
 
@@ -349,22 +355,9 @@ def r4_version_conflicts(ctx):
         ctx.check(R, key, ok, detail, site)
 
 
-class _Renamed:
-    """Re-issue another module's rule under this property's id."""
-
-    def __init__(self, ctx, rid, statement):
-        self._ctx, self._rid, self._statement = ctx, rid, statement
-
-    def rule(self, rid, statement, floor=1):
-        return self._ctx.rule(self._rid, self._statement + " [= %s: %s]" % (rid, statement), floor)
-
-    def __getattr__(self, name):
-        return getattr(self._ctx, name)
-
-
 def r4e2_overlap_table(ctx):
     from . import c05
-    c05.e2_overlaps(_Renamed(ctx, "C02.R4E2", "neither a shared version is accepted nor a disjoint pair refused: overlaps_with is exact on all order types"))
+    c05.e2_overlaps(Renamed(ctx, "C02.R4E2", "neither a shared version is accepted nor a disjoint pair refused: overlaps_with is exact on all order types"))
 
 
 # --------------------------------------------------------------------------- R5
@@ -787,6 +780,8 @@ SELFTEST = [
      "edits": [(AD, ") => earliest <= range_earliest || r.matches(Some(&earliest)),\n            (\n                r @ ApiEndpointVersions::FromUntil",
                 ") => r.matches(Some(&earliest)),\n            (\n                r @ ApiEndpointVersions::FromUntil")],
      "why": "From(A) and FromUntil(e,u) with A < e share every version of [e,u) but are reported disjoint (same class as the repaired defect F3)"},
+    {"name": "pre-fix-F3-overlap", "kind": "mutant", "expect": ["C02.R4E2"], "edits": PRE_FIX_F3_EDITS,
+     "why": "the repaired defect F3: overlaps_with(From(A), FromUntil(A,A)) = false although both contain A, so both endpoints register"},
     {"name": "wildcard-parameter-checked-as-scalar", "kind": "mutant", "expect": ["C02.R5"],
      "edits": [(AD, "                        Some(SegmentOrWildcard::Wildcard) => {\n                            type_is_string_enum(",
                 "                        Some(SegmentOrWildcard::Wildcard) => {\n                            type_is_scalar(")],
@@ -820,6 +815,18 @@ SELFTEST = [
     {"name": "benign-iterate-by-reference", "kind": "benign",
      "edits": [(RT, "for handler in existing_handlers.iter() {", "for handler in &*existing_handlers {")],
      "why": "behaviour-preserving: IntoIterator for &Vec instead of .iter()"},
+    {"name": "benign-register-returns-result-directly", "kind": "benign",
+     "edits": [(AD, "            message: error,\n        })?;\n\n        Ok(())\n", "            message: error,\n        })\n")],
+     "why": "behaviour-preserving: `x?; Ok(())` on a Result<(), E> written as `x`"},
+    {"name": "benign-visible-compared-with-false", "kind": "benign",
+     "edits": [(AD, "if !e.visible {", "if e.visible == false {")],
+     "why": "behaviour-preserving: !b written as b == false"},
+    {"name": "benign-panic-in-helper", "kind": "benign",
+     "edits": [(RT, _CONTAINS_PANIC, "    if varnames.contains(new_varname) {\n        duplicate_variable(path, new_varname);\n    }\n"),
+               (RT, "/// Insert a variable into the set after checking for duplicates.",
+                "fn duplicate_variable(path: &str, new_varname: &String) -> ! {\n    panic!(\n        \"URI path \\\"{}\\\": variable name \\\"{}\\\" is used more than once\",\n"
+                "        path, new_varname\n    );\n}\n\n/// Insert a variable into the set after checking for duplicates.")],
+     "why": "behaviour-preserving: the refusal extracted into a diverging helper function"},
     {"name": "benign-endpoint-rebound", "kind": "benign",
      "edits": [(AD, "            s.router.insert(e);", "            let validated = e;\n            s.router.insert(validated);")],
      "why": "behaviour-preserving: the validated endpoint moved through a local"},
